@@ -99,7 +99,7 @@ func TestVerifC44Triggers(t *testing.T) {
 	n := lib.N(200)
 	for hi := 0; hi < n; hi++ {
 		h := &vHarness{tr: tr, r: r, raw: false, th: &core.Thread{},
-			alpha: []string{"", "", "a", "b", "c", "a\x00", "ab", "!"}}
+			alpha: []string{"", "", "a", "b", "c", "d\x00", "ab", "!"}}
 		h.sch = vShape(r)
 		g := &vTrig{h: h, kind: make([]int, len(h.sch.tables)), dis: make([]int, len(h.sch.tables))}
 		MakeSuTran = func(ut *UpdateTran) *core.SuTran { g.made = ut; return core.NewSuTran(nil, true) }
